@@ -11,8 +11,9 @@ PID = "C08"
 LEAN_MODS = ["SwcVerif.Props.C08", "SwcVerif.Props.C08Gen", "SwcVerif.Props.C08Node"]
 # Gen/AlgoBranches.lean (Tree.get_branches / get_paths / get_furcations and their closures) runs on Gen/AlgoTraverse.lean;
 # Gen/AlgoNodeBranch.lean (Tree.get_tips, Tree.Node.branch) runs on the node methods of Gen/AlgoNode.lean
-TRANSLATE_ALGO = ["AlgoTraverse", "AlgoBranches", "AlgoNode", "AlgoNodeBranch"]
-DRIVER_FILES = ["SwcVerif/Model/AlgoRunBranches.lean", "SwcVerif/Model/AlgoRunNodeBranch.lean"]
+TRANSLATE_ALGO = ["AlgoTraverse", "AlgoBranches", "AlgoNode", "AlgoNodeBranch", "AlgoSubtree", "AlgoBranchTree"]
+DRIVER_FILES = ["SwcVerif/Model/AlgoRunBranches.lean", "SwcVerif/Model/AlgoRunNodeBranch.lean", "SwcVerif/Model/AlgoRunBranchTree.lean",
+                "SwcVerif/Model/BranchTree.lean"]
 THEOREMS = [
     "C08.getBranches_eq", "C08.branches_partition_edges", "C08.branch_shape", "C08.branch_ends", "C08.getPaths_eq", "C08.paths_one_per_tip",
     "C08.tips_eq_childless", "C08.tipsOf_childless", "C08.furcations_eq", "C08.furcsOf_ge2", "C08.branchTree_table",
@@ -281,6 +282,17 @@ class Decomp(Suite):
                          "branches": {str(k): [[[float(c) for c in row] for row in b.xyz()] for b in v] for k, v in bt.branches.items()}}
         except Exception as e:  # noqa: BLE001
             res["bt"] = {"exc": type(e).__name__, "msg": str(e)[:200]}
+        # the branch tree at the topology level (for the definition GENERATED from branch_tree.py, Gen/AlgoBranchTree.lean): the radius column
+        # of a copy carries the row number, so that the gather map (which original row every new row was taken from) and the members
+        # of every remembered branch can be read off the result without looking inside `from_tree`
+        try:
+            t2 = t.copy()
+            t2.ndata[t2.names.r] = np.arange(n_eff, dtype=np.float32)
+            b2 = BranchTree.from_tree(t2)
+            res["bt_topo"] = {"id": [int(x) for x in b2.id()], "pid": [int(x) for x in b2.pid()], "src": [int(x) for x in b2.r()],
+                              "branches": [[int(k), [[int(x) for x in b.r()] for b in v]] for k, v in b2.branches.items()]}
+        except Exception as e:  # noqa: BLE001
+            res["bt_topo"] = {"exc": type(e).__name__}
         return res
 
     def lines(self, case, res):
@@ -301,6 +313,15 @@ class Decomp(Suite):
         ii = lambda l: gen.ints(l).replace("_", "")
         if t["n"] <= 1500:                                       # `x in pids` per node: quadratic
             out.append(("gtips " + b, ii(res["tips"])))
+        # BranchTree.from_tree as generated on this run (on the generated get_branches / to_sub_topology), and its hand-written model;
+        # the dictionary is compared in insertion order
+        bt = res.get("bt_topo")
+        if bt is not None and t["n"] <= 1500:
+            if "exc" in bt:
+                out += [("gbrtable " + b, "E"), ("brtree " + b, "E")]
+            else:
+                tail = (f"pid={ii(bt['pid'])} / src={ii(bt['src'])} / br=" + "|".join(f"{k}:{sl(v)}" for k, v in bt["branches"]))
+                out += [("gbrtable " + b, f"n={len(bt['id'])} id={ii(bt['id'])} / " + tail), ("brtree " + b, tail)]
         for i, br in res["node_branch"].items():
             if t["n"] <= 400 or int(i) < 3:
                 out.append((f"gnodebranch {b} node={i}", ii(br)))
